@@ -279,6 +279,8 @@ class Server(object):
         self.delayed_results = {}        # phone -> [(upload dict, result stanza)]
         self.ask_keys_ids = 0
         self.auto_success = True
+        self.reduced_success_once = set()    # phones whose next <success> lacks the attributes in reduced_success_drop
+        self.reduced_success_drop = ("creation",)
         self.low_keys = 0                # ask an account for more keys when fewer than this many are left
         self.asked_low = set()
 
@@ -305,7 +307,14 @@ class Server(object):
         self.outbound[client.phone] = []
         self.inbound.setdefault(client.phone, [])
         if self.auto_success:
-            self.outbound[client.phone].append(self.success_stanza())
+            st_ = self.success_stanza()
+            if client.phone in self.reduced_success_once:
+                # a success reply without some of its optional attributes (once for this account)
+                self.reduced_success_once.discard(client.phone)
+                drop = self.reduced_success_drop
+                st_ = (st_[0], {k: v for k, v in st_[1].items() if k not in drop}, st_[2], st_[3])
+                self.world.count("reduced_success_sent")
+            self.outbound[client.phone].append(st_)
         for st in self.offline.pop(client.phone, []):
             if st[0] in ("message", "receipt"):
                 st = (st[0], dict(st[1], offline="0"), st[2], st[3])
